@@ -985,6 +985,21 @@ Proof.
   destruct (Z.leb_spec a 0); [lia|reflexivity].
 Qed.
 
+(* what the doubling high multiply is, mathematically: a*b/2^31 rounded to nearest, ties upward *)
+Lemma srdhm32_round_half_up a b :
+  in_int 32 a = true -> in_int 32 b = true -> (a =? b) && (a =? -2147483648) = false ->
+  SRDHM32 a b = (a * b + 2 ^ 30) / 2 ^ 31.
+Proof.
+  intros Ha Hb Eo. apply in_int32_true in Ha. apply in_int32_true in Hb.
+  rewrite SRDHM32_closed by assumption. unfold srdhm32_c. rewrite Eo.
+  change (2 ^ 30) with 1073741824. change (2 ^ 31) with 2147483648.
+  destruct (Z.geb_spec (a * b) 0) as [Hs|Hs].
+  - apply Z.quot_div_nonneg; lia.
+  - destruct (quot_bounds (a * b + (1 - 1073741824)) 2147483648 ltac:(lia)) as [_ H]. specialize (H ltac:(lia)).
+    pose proof (Z.div_mod (a * b + 1073741824) 2147483648 ltac:(lia)).
+    pose proof (Z.mod_pos_bound (a * b + 1073741824) 2147483648 ltac:(lia)). lia.
+Qed.
+
 (* ------------------------------------------------------------------------------------------
    non-trivial instances of the hypotheses (computed by the kernel) *)
 Example srdhm32_example :
@@ -1285,6 +1300,7 @@ Proof.
     apply hs_tail; try assumption. apply clamp16_in16.
   - destruct (Z.gtb_spec rsh 31) as [Hgt|Hle].
     + (* multiplier exponent < 0: rounding right shift *)
+      cbn [obind].
       rewrite (srdhm16_gen_closed hires rs16 Ih I2). cbn [obind].
       rewrite (SRDHM16_closed hires rs16 Ih I2). set (r2 := srdhm16_c hires rs16).
       assert (I2' : in16 r2) by (apply srdhm16_c_in16; assumption).
@@ -1292,13 +1308,14 @@ Proof.
       replace (- (31 - rsh)) with (rsh - 31) by lia.
       rewrite (RDBPOT16_closed r2 (rsh - 31) I2' ltac:(lia)).
       apply hs_tail; try assumption. apply rdbpot_c_in16; [assumption|lia].
-    + rewrite (srdhm16_gen_closed hires rs16 Ih I2). cbn [obind].
+    + cbn [obind]. rewrite (srdhm16_gen_closed hires rs16 Ih I2). cbn [obind].
       rewrite (SRDHM16_closed hires rs16 Ih I2).
       apply hs_tail; try assumption. apply srdhm16_c_in16; assumption.
 Qed.
 
 Example lut_hardswish_example :
-  vela_hardswish_entry (-128) (-128) 1073741824 38 1832519379 29 (-128) 127 0 = Some 0 /\
-  HardSwishRef (-128) (-128) 27962 2 16384 (-7) (-128) 127 0 = 0 /\
-  vela_hardswish_entry (-128) (-128) 1073741824 38 1832519379 29 (-128) 127 (-100) = Some (-110).
+  (* int8, ifm_scale = ofm_scale = 0.04, zero points -128: code 0 is the real value 5.12 -> 5.12/0.04 - 128 = 0 *)
+  vela_hardswish_entry (-128) (-128) 1073741824 37 1832519339 29 (-128) 127 0 = Some 0 /\
+  HardSwishRef (-128) (-128) 27962 2 16384 (-6) (-128) 127 0 = 0 /\
+  vela_hardswish_entry (-128) (-128) 1073741824 37 1832519339 29 (-128) 127 (-100) = Some (-109).
 Proof. vm_compute. repeat split. Qed.
